@@ -92,14 +92,14 @@ def plan(tier):
     return {
         "shards": shards,
         "rule": "Short-descriptor tables generated in RAM: TTBCR.N 0..7 x VA place (last 16 MB below / first 16 MB above "
-                "the TTBR0-TTBR1 boundary, the FCSE window, the top of the address space) x FCSE PID {0,5} x SCTLR.EE x "
+                "the TTBR0-TTBR1 boundary, the FCSE window, the top of the address space) x FCSE PID {0,0x45} x SCTLR.EE x "
                 "leaf kind {section, section(bits<1:0>=11), supersection, large page, small page} x AP<2:0> (8) x DACR "
                 "field (4) x SCTLR.AFE x domain {0,5,15} x attribute alphabet x VA {first word, last word, interior of the "
                 "unit; the word before and after the unit} x read/write x privileged/unprivileged, plus sub-products for "
                 "fault descriptors, TTBCR.PD0/PD1, SCTLR.TRE=0 / HA=1 (mock hooks), SCR.NS, PRRR/NMRR decode, no "
                 "Security Extensions, LPAE-capable configuration, MMU off, and Long-descriptor stage-1 walks; each case "
                 "through translate_address() with a whole-snapshot comparison and a subset through LDR/STR/LDRT/STRT",
-        "bounds": {"N": list(n_list(tier)), "pid": [0, 5], "domains": [0, 5, 15], "ap": "0..7", "dacr_field": "0..3",
+        "bounds": {"N": list(n_list(tier)), "pid": [0, 69], "domains": [0, 5, 15], "ap": "0..7", "dacr_field": "0..3",
                    "attrs": ["tex=%d c=%d b=%d s=%d ng=%d xn=%d ns=%d pxn=%d" % a for a in ATTRS],
                    "quick_diagonals": "quick tier: domain, attribute alphabet, PRRR variant (and SCR.NS = 0) are rotated over "
                                       "the main product by a fixed diagonal instead of multiplied in (thorough: domain x "
@@ -509,7 +509,7 @@ def api_shard(res, ctx, tier, n, place):
     quick = tier == "quick"
     doms = (0, 5, 15)
     k = 0
-    for pid, ee in itertools.product((0, 5), (0, 1)):
+    for pid, ee in itertools.product((0, 0x45), (0, 1)):
         for kind in MAPPED + ["supersection-pxn"]:
             if kind == "supersection-pxn" and quick:
                 continue
@@ -542,7 +542,7 @@ def special_shard(res, ctx, tier, part):
         # TTBCR.PD0 / PD1 (defined only with the Security Extensions; reserved and ignored without)
         for n, (pd0, pd1) in itertools.product(range(8), ((1, 0), (0, 1), (1, 1))):
             for pl in places(n):
-                for kind, pid, afe, dacrf in itertools.product(("section", "small-page", "l1-fault"), (0, 5),
+                for kind, pid, afe, dacrf in itertools.product(("section", "small-page", "l1-fault"), (0, 0x45),
                                                                (0,) if quick else (0, 1), (0, 1) if quick else (0, 1, 3)):
                     run_setup(ctx, res, P(cfg=cfgname, n=n, place=pl[0], kind=kind, pid=pid, pd0=pd0, pd1=pd1, afe=afe,
                                           dacrf=dacrf, ap=(5 if afe else 2)), extra=True)
@@ -577,7 +577,7 @@ def off_shard(res, ctx, tier):
     """MMU disabled: flat mapping, Strongly-ordered, no faults - whatever the tables and DACR say."""
     vas = [0x0, 0x1000, 0x01FFFFFC, 0x02000000, 0x0A000010, 0x7FFFFFFC, 0x80000000, 0xFF000000, 0xFFFFFFFC, DATA + 4]
     cpu, plan, r = ctx.cpu, ctx.plan, ctx.cpu.registers
-    for n, kind, pid, dacrf, ns, afe in itertools.product((0, 1, 7), ("section", "l1-fault"), (0, 5), (0, 1, 3), (0, 1), (0, 1)):
+    for n, kind, pid, dacrf, ns, afe in itertools.product((0, 1, 7), ("section", "l1-fault"), (0, 0x45), (0, 1, 3), (0, 1), (0, 1)):
         p = P(m=0, n=n, place="t1bot", kind=kind, pid=pid, dacrf=dacrf, ns=ns, ap=0, afe=afe)
         uva, size, which = apply(ctx, p)
         pre = plan.snapshot()
